@@ -265,7 +265,7 @@ impl Check for Forwarder {
                 Step::Advance { n } => {
                     w.advance(*n);
                     m.now += n;
-                    st.ledgers += *n as u64;
+                    st.ledgers += *n as u64; st.hit("clock.advance"); if *n > 100_000 { st.hit("clock.jump"); }
                 }
                 Step::SetTrap { on } => {
                     tg.set_trap(on);
